@@ -27,9 +27,27 @@ class ExprExpect:
         return f"Expr({self.tree})"
 
 
+class ListExpect:
+    """Expected value of a list expression {a,b,...}: the same elements in the same order, each as written; blanks next to the commas
+    and braces are layout."""
+
+    def __init__(self, els):
+        self.tree = list(els)
+
+    def matches(self, stored):
+        if not isinstance(stored, str) or len(stored) < 2 or stored[0] != "{" or stored[-1] != "}":
+            return False
+        return [e.strip(" ") for e in stored[1:-1].split(",")] == self.tree
+
+    def __repr__(self):
+        return f"List({self.tree})"
+
+
 def expect_item_value(it):
     if it.shape == "expression":
         return ExprExpect(it.expr)
+    if it.shape == "list" and it.expr is not None:
+        return ListExpect(it.expr)
     return it.value
 
 
@@ -109,7 +127,7 @@ def is_num(x):
 
 def compare(exp, got, path="$"):
     """None when `got` is exactly what the contract promises for `exp`; otherwise a description of the first difference."""
-    if isinstance(exp, ExprExpect):
+    if isinstance(exp, (ExprExpect, ListExpect)):
         return None if exp.matches(got) else f"{path}: stored expression {got!r} does not denote the intended tree {exp.tree!r}"
     if isinstance(exp, dict):
         if not isinstance(got, dict):
